@@ -110,7 +110,7 @@ func TestRegressDiamondStates(t *testing.T) {
 	mustPass(t, "diamond states", c)
 
 	d := diamondT{Sec: 1, Tag: 1, Start: 1, How: "api"}
-	for i, id := range []string{"pod-1", "pod-10", "pod-2", "a", "ab", "a-b", hx.KSUID(3, 3), hx.KSUID(2, 2), "diamond-1", "split-done", "diamond-running", "splits"} {
+	for i, id := range []string{"pod-1", "pod-10", "pod-2", "a", "ab", "a-b", hx.KSUID(3, 3), hx.KSUID(2, 2), "split-done", "diamond-1", "splits", "diamond-running"} {
 		d.Splits = append(d.Splits, splitT{ID: id, Start: 8 - i, Done: i%2 == 0, How: map[bool]string{true: "api", false: "forged"}[i%3 == 0], Gens: []int{0}})
 	}
 	c = caseT{Focus: []repoT{{Name: "r", Diamonds: []diamondT{d, {Sec: 2, Tag: 1, Start: 0, How: "api"}}}}, Lists: allBatches("splits", 0, 0, listT{Kind: "splits", NoOpts: true})}
